@@ -174,3 +174,122 @@ Proof.
     exact (unique_kind x y p ex ey Ex Ey). }
   destruct (Nat.ltb_spec 1 (count_ones (map (fun k => acc_flag (decode k p)) all_kinds))); [lia|reflexivity].
 Qed.
+
+(* ---------- C09, encode side: the checker accepts the model's observation for every well-formed frame ---------- *)
+Require Import RP.Lemmas.CobsLemmas.
+Lemma existsb_zero_false l : ~ In 0 l -> existsb (fun x => x =? 0) l = false.
+Proof.
+  intros H. destruct (existsb (fun x => x =? 0) l) eqn:E; [|reflexivity].
+  apply existsb_exists in E. destruct E as [x [Hx Hz]]. apply N.eqb_eq in Hz. subst x. contradiction.
+Qed.
+Lemma parse_fobs_val f : length (f_data f) = 8%nat -> parse_fobs (show_out show_frame ferr_code (Val f)) = Some (inl f, []).
+Proof.
+  intros Hl. unfold show_out. cbn [parse_fobs]. rewrite <- (app_nil_r (show_frame f)) at 2. rewrite take_app.
+  rewrite <- (app_nil_r (show_frame f)), (parse_show_frame f [] Hl). reflexivity.
+Qed.
+Theorem ok_C09_USE_accepts_model f : wf_frame f = true -> ok_C09_USE (show_frame f) (run_USE (show_frame f)) = [].
+Proof.
+  intros Hw. pose proof (wf_frame_len f Hw) as Hl. destruct (wf_frame_parts f Hw) as [Hd _].
+  unfold ok_C09_USE, run_USE. rewrite <- (app_nil_r (show_frame f)), (parse_show_frame f [] Hl). rewrite Hw. cbn [negb].
+  rewrite (usart_layout f Hw). remember (header_spec f ++ firstn (N.to_nat (f_dlen f)) (f_data f)) as body eqn:Hb.
+  assert (Hbl: length body = (5 + N.to_nat (f_dlen f))%nat) by (subst body; unfold header_spec; rewrite app_length, firstn_length; cbn [length]; lia).
+  unfold show_out at 1. cbn [app]. rewrite take_app. rewrite list_eqb_refl. cbn [negb].
+  rewrite (existsb_zero_false _ (cobs_encode_nozero body)).
+  rewrite cobs_encode_length by lia.
+  assert (E14: (14 <? S (length body))%nat = false) by (apply Nat.ltb_ge; lia). rewrite E14.
+  destruct (Bool.eqb (f_last f) (f_st f)) eqn:El; [|reflexivity].
+  apply Bool.eqb_prop in El. destruct (usart_roundtrip f Hw El) as [enc [He [Hd' _]]].
+  rewrite (usart_layout f Hw), <- Hb in He. inversion He as [He']. rewrite He', Hd'.
+  rewrite (parse_fobs_val f Hl). unfold frame_eqb. rewrite list_eqb_refl. reflexivity.
+Qed.
+
+(* ---------- C08 and C04 (CAN side): the checkers accept the model's observations ---------- *)
+Require Import RP.Spec.CanLayout.
+Lemma b2N_flag b : negb (b2N b =? 0) = b.
+Proof. destruct b; reflexivity. Qed.
+Lemma parse_show_can c r : parse_can (show_can c ++ r) = Some (c, r).
+Proof.
+  destruct c as [e rm id dlc d]. unfold show_can, parse_can. cbn [cf_ext cf_remote cf_id cf_dlc cf_data app].
+  rewrite take_app, !b2N_flag. reflexivity.
+Qed.
+Theorem ok_C08_CAE_accepts_model f : wf_frame f = true -> ok_C08_CAE (show_frame f) (run_CAE (show_frame f)) = [].
+Proof.
+  intros Hw. pose proof (wf_frame_len f Hw) as Hl.
+  unfold ok_C08_CAE, run_CAE. rewrite <- (app_nil_r (show_frame f)), (parse_show_frame f [] Hl). rewrite Hw. cbn [negb].
+  rewrite (to_bxcan_layout f Hw). remember (mkCF true false (can_id_spec f) (f_dlen f) (firstn (N.to_nat (f_dlen f)) (f_data f))) as c eqn:Hc.
+  unfold show_out at 1. cbn [app]. rewrite take_app.
+  rewrite <- (app_nil_r (show_can c)), parse_show_can.
+  assert (Hx: cf_ext c = true) by (subst c; reflexivity). assert (Hr: cf_remote c = false) by (subst c; reflexivity).
+  assert (Hi: cf_id c = can_id_spec f) by (subst c; reflexivity).
+  assert (Hd: cf_data c = firstn (N.to_nat (f_dlen f)) (f_data f)) by (subst c; reflexivity).
+  rewrite Hx, Hr, Hi, Hd, N.eqb_refl, list_eqb_refl. cbn [negb orb].
+  destruct (fragment_shaped f) eqn:Hs; [|reflexivity].
+  destruct (bxcan_roundtrip f Hw Hs) as [c' [Hc' [_ Hd']]].
+  rewrite (to_bxcan_layout f Hw), <- Hc in Hc'. injection Hc' as Hcc. rewrite Hcc, Hd'.
+  rewrite (parse_fobs_val f Hl). unfold frame_eqb. rewrite list_eqb_refl. reflexivity.
+Qed.
+
+Theorem ok_C08_CAD_accepts_model c : wf_canframe c = true -> ok_C08_CAD (show_can c) (run_CAD (show_can c)) = [].
+Proof.
+  intros Hw. unfold ok_C08_CAD, run_CAD. rewrite <- (app_nil_r (show_can c)), parse_show_can. rewrite Hw. cbn [negb].
+  destruct (from_bxcan_total c Hw) as [Hp [Hh Hv]]. rewrite <- (from_bxcan_layout c Hw).
+  destruct (from_bxcan c) as [f|e| |] eqn:Ef; try contradiction.
+  - destruct (Hv f eq_refl) as [Hwf _]. pose proof (wf_frame_len f Hwf) as Hl.
+    unfold show_out. cbn [app parse_fobs]. rewrite take_app.
+    rewrite <- (app_nil_r (show_frame f)), (parse_show_frame f [] Hl). unfold frame_eqb. rewrite list_eqb_refl. reflexivity.
+  - reflexivity.
+Qed.
+
+Theorem ok_C04_CAD_accepts_model c : wf_canframe c = true -> ok_C04_CAD (show_can c) (run_CAD (show_can c)) = [].
+Proof.
+  intros Hw. unfold ok_C04_CAD, run_CAD, c04_ok. rewrite <- (app_nil_r (show_can c)), parse_show_can.
+  destruct (from_bxcan_total c Hw) as [Hp [Hh Hv]].
+  destruct (from_bxcan c) as [f|e| |] eqn:Ef; try contradiction.
+  - destruct (Hv f eq_refl) as [Hwf _]. unfold show_out. cbn [app parse_fobs].
+    rewrite take_app. rewrite <- (app_nil_r (show_frame f)), (parse_show_frame f [] (wf_frame_len f Hwf)).
+    rewrite Hwf, (reencode_flags_zero f Hwf). reflexivity.
+  - reflexivity.
+Qed.
+
+(* ---------- C09, decode side ---------- *)
+Require Import RP.Lemmas.Bits.
+Lemma from_usart_decoded enc body : bytes body = true -> cobs_decode enc = Some body -> (5 <= length body)%nat ->
+  nth 4 body 0 = N.of_nat (length body - 5) -> (length body <= 13)%nat -> from_usart enc = Val (frame_of_body body).
+Proof.
+  intros Hb Hdec Hl H4 Hl2. unfold from_usart. rewrite Hdec.
+  assert (E5: (length body <? 5)%nat = false) by (apply Nat.ltb_ge; lia). rewrite E5.
+  rewrite (idx_nth body 4) by lia. cbn [bind]. rewrite H4.
+  assert (Eg: (8 <? N.of_nat (length body - 5)) || negb (length body =? N.to_nat (N.of_nat (length body - 5)) + 5)%nat = false).
+  { apply orb_false_intro; [lia|]. apply negb_false_iff, Nat.eqb_eq. lia. }
+  rewrite Eg. rewrite (idx_nth body 0), (idx_nth body 1), (idx_nth body 2), (idx_nth body 3) by lia. cbn [bind].
+  rewrite slice_val by lia. cbn [bind]. unfold frame_of_body.
+  pose proof (bytes_nth body 1 Hb) as H1. pose proof (bytes_nth body 3 Hb) as H3.
+  rewrite !join16 by assumption. rewrite land_f, !bit_arith, H4.
+  change (2 ^ 7) with 128. change (2 ^ 6) with 64. change (2 ^ 5) with 32.
+  replace (firstn (N.to_nat (N.of_nat (length body - 5))) (skipn 5 body)) with (skipn 5 body)
+    by (symmetry; apply firstn_all2; rewrite skipn_length; lia).
+  reflexivity.
+Qed.
+
+Theorem ok_C09_USD_accepts_model bs : bytes bs = true -> ok_C09_USD bs (run_USD bs) = [].
+Proof.
+  intros Hb. unfold ok_C09_USD, c09_dec_expect, run_USD. rewrite Hb. cbn [negb].
+  destruct (cobs_decode bs) as [body|] eqn:Ed.
+  - pose proof (cobs_decode_bytes _ _ Hb Ed) as Hbb.
+    destruct (length body <? 5)%nat eqn:E5.
+    + unfold from_usart. rewrite Ed, E5. reflexivity.
+    + apply Nat.ltb_ge in E5.
+      destruct ((8 <? nth 4 body 0) || negb (length body =? N.to_nat (nth 4 body 0%N) + 5)%nat) eqn:Eg.
+      * unfold from_usart. rewrite Ed. assert (E5': (length body <? 5)%nat = false) by (apply Nat.ltb_ge; lia). rewrite E5'.
+        rewrite (idx_nth body 4) by lia. cbn [bind]. rewrite Eg. reflexivity.
+      * apply orb_false_elim in Eg. destruct Eg as [E8 El]. apply negb_false_iff, Nat.eqb_eq in El.
+        assert (H4: nth 4 body 0 = N.of_nat (length body - 5)) by lia.
+        rewrite (from_usart_decoded bs body Hbb Ed E5 H4) by lia.
+        destruct (from_usart_total bs Hb) as [_ [_ Hv]].
+        destruct (Hv _ (from_usart_decoded bs body Hbb Ed E5 H4 ltac:(lia))) as [Hwf _].
+        pose proof (wf_frame_len _ Hwf) as Hlen.
+        unfold show_out at 1. cbn [app parse_fobs]. rewrite take_app.
+        rewrite <- (app_nil_r (show_frame (frame_of_body body))), (parse_show_frame _ [] Hlen).
+        unfold frame_eqb. rewrite list_eqb_refl. reflexivity.
+  - unfold from_usart. rewrite Ed. reflexivity.
+Qed.
